@@ -42,6 +42,12 @@ UStep(st, e, t) ==
       [] e.e = "recfg" ->
            Good([st EXCEPT !.cons[e.k].cob = e.cob, !.cons[e.k].enabled = e.enabled, !.cons[e.k].rtr = e.rtr,
                            !.cons[e.k].subs = IF e.enabled THEN st.cons[e.k].subs \cup {e.cob} ELSE st.cons[e.k].subs])
+      [] e.e = "pen" -> Good(st)      \* the producing map's enabled flag: transmit() does not depend on it
+      [] e.e = "remap" ->
+           LET new == [st.cons EXCEPT ![e.k].frame = Zeros(FrameLen(t.lay))] IN
+           IF ~e.ok THEN Bad(st, "consumer: mapping a map anew raised")
+           ELSE IF e.cons # Proj(new) THEN Bad(st, "a map was mapped anew: another map lost what it had received (or this one kept stale data)")
+           ELSE Good([st EXCEPT !.cons = new])
       [] e.e = "rtr" ->
            LET c == st.cons[e.k] IN
            IF e.frames # (IF c.enabled /\ c.rtr THEN <<[id |-> c.cob, d |-> <<>>, rtr |-> TRUE]>> ELSE <<>>)
